@@ -114,6 +114,16 @@ func (o *Option) IsInline() bool {
 	return inline
 }
 
+// profileFile returns the file of a profile named by a directive: the overwrite
+// task may have renamed it with the package suffix
+func profileFile(name string) *paths.Path {
+	file := prebuild.RootApparmord.Join(name)
+	if renamed := prebuild.RootApparmord.Join(name + ".apparmor.d"); file.NotExist() && renamed.Exist() {
+		return renamed
+	}
+	return file
+}
+
 func RegisterDirective(d Directive) {
 	Directives[d.Name()] = d
 }
